@@ -51,7 +51,7 @@ func tryB(f func()) *hx.PanicInfo {
 }
 
 func TestMain(m *testing.M) {
-	R.Require("recipients>1", "gcm", "descbc", "c1c2c3", "c1c3c2", "rsa_recipient", "non_recipient", "wrong_key", "sm2_signed_attrs", "sm2_signed_noattrs", "rsa_signed_library", "detached",
+	R.Require("ber_mixed_forms", "signed_ber_mixed_forms", "wrapped_key_c3_altered", "recipients>1", "gcm", "descbc", "c1c2c3", "c1c3c2", "rsa_recipient", "non_recipient", "wrong_key", "sm2_signed_attrs", "sm2_signed_noattrs", "rsa_signed_library", "detached",
 		"mut:content", "mut:attr", "mut:digest_attr", "mut:signature", "mut:other_key_cert", "p12_pwd_nonascii", "p12_wrong_pwd", "p12_corrupt", "p12_cacerts", "p12_long_pwd", "signers>1")
 	hx.Main(m, R)
 }
@@ -259,6 +259,27 @@ func TestC17_Enveloped(t *testing.T) {
 			}
 			env = prim
 			cl = append(cl, "primitive_encrypted_content")
+		}
+		// the same envelope as mixed-form BER: a drawn subset of its constructed values in the indefinite-length form, the
+		// others definite (what streaming encoders of other toolkits produce); ParsePKCS7 normalises BER, so it opens alike
+		if rapid.IntRange(0, 2).Draw(t, "ber") == 0 {
+			mask := rapid.Uint64().Draw(t, "bermask")
+			if rapid.Bool().Draw(t, "bersparse") {
+				mask &= rapid.Uint64().Draw(t, "bermask2")
+			}
+			ber, nind := gen.BERMixed(env, func(k int) bool { return mask>>(uint(k)%64)&1 == 1 })
+			if nind > 0 {
+				for i := 0; i < nrec; i++ {
+					out, err, pn := dec(ber, certs[i], keyOf(i))
+					if pn != nil {
+						t.Fatalf("decrypt of the BER form panicked: %v\n%s", pn.Val, pn.Stack)
+					}
+					if err != nil || !bytes.Equal(out, content) {
+						t.Fatalf("recipient %d cannot open the envelope re-encoded as BER with %d of its constructed values in the indefinite-length form (mask %x, %d -> %d bytes): err=%v", i, nind, mask, len(env), len(ber), err)
+					}
+				}
+				cl = append(cl, "ber_mixed_forms")
+			}
 		}
 		// one parsed object serves every recipient, each of them twice: opening an envelope must not use it up
 		{
@@ -772,9 +793,17 @@ func TestC17_LibrarySigner(t *testing.T) {
 		if err != nil {
 			t.Fatalf("library signer: %v", err)
 		}
-		p7, err := gx.ParsePKCS7(der)
+		parseIn := der
+		if rapid.IntRange(0, 2).Draw(t, "ber") == 0 {
+			mask := rapid.Uint64().Draw(t, "bermask") & rapid.Uint64().Draw(t, "bermask2")
+			if ber, nind := gen.BERMixed(der, func(k int) bool { return mask>>(uint(k)%64)&1 == 1 }); nind > 0 {
+				parseIn = ber
+				R.Class("signed_ber_mixed_forms")
+			}
+		}
+		p7, err := gx.ParsePKCS7(parseIn)
 		if err != nil {
-			t.Fatalf("ParsePKCS7 of the library's own signed-data: %v", err)
+			t.Fatalf("ParsePKCS7 of the library's own signed-data (%d bytes; as BER: %v): %v", len(parseIn), len(parseIn) != len(der), err)
 		}
 		if detach {
 			p7.Content = content
